@@ -3,7 +3,7 @@
 use super::common::*;
 use crate::bridge::Bound;
 use crate::cachemc::{self, Env};
-use crate::formulas::{collision_alphabet, duplicate_templates, templates, Alphabet, Gen, F};
+use crate::formulas::{collision_alphabet, duplicate_templates, pair_family, templates, Alphabet, Gen, F};
 use crate::nets::NetSpec;
 use crate::oracle::Labels;
 use crate::report::{Report, Violation};
@@ -162,6 +162,10 @@ pub fn run(tier: &str) -> Result<Report, String> {
             let mut g = Gen::new(Alphabet::extended(ctx.nprops(), 2, 1, 2));
             fs.extend(g.closed_up_to(if tier == "quick" { 3 } else { 4 }));
             fs.extend(duplicate_templates(ctx.nprops(), if tier == "quick" { 4 } else { 5 }, true, true));
+            if ctx.b.n >= 2 {
+                let pool: Vec<F> = collision_alphabet(&ctx.user).into_iter().take(if tier == "quick" { 14 } else { 28 }).collect();
+                fs.extend(pair_family(&pool, if tier == "quick" { 6 } else { 12 }, true));
+            }
             n_single += fs.len() as u64;
             let bad: Vec<Violation> = fs
                 .par_chunks(256)
